@@ -302,7 +302,9 @@ PROPS["C20"] = {
             "and notes, tap_to_pay whose stored expectation is stale and is not used) the harness builds variants of the FULL "
             "rustdoc JSON of the crate and of every dependent crate the CLI loads: id = as bundled; renum:<seed> = every item id, "
             "wherever it occurs (values and map keys, found by a schema-agnostic serde pass), sent through a random injective map "
-            "per crate (three regimes: permutation of the ids in use / sparse range / whole u32 range incl. 0 and 2^32-1); "
+            "per crate (four regimes: permutation of the ids in use / sparse range / whole u32 range incl. 0 and 2^32-1 / the special "
+            "ids 0, 1, 2^32-1 swapped onto items of a chosen kind — mostly the summary of a crux crate's type that a local field "
+            "refers to — with everything else unchanged); "
             "shuf:<seed> = JSON re-serialised with the keys of every object in random order and re-parsed; mix:<seed> = both plus "
             "a random forced crate order; order:<perm> = the dependent crates loaded in that order (every permutation; the loop of "
             "`run` is replayed with the next crate chosen by the harness). Every case runs the real private `run` twice on freshly "
@@ -600,6 +602,10 @@ PROPS["C10"] = {
             "back; `strict` = encodings built from the traced registry alone (every variant of every enum, boundary integers, lengths "
             "0/1/many) given to the real bincode deserialiser of the Rust type and re-serialised, plus the same values as `val`; `any` = "
             "those encodings mutated (trailing bytes, truncation, bit flips, tag/length bytes set to boundary values, random bytes; not "
+            "for roots containing a map), every Event / HttpResult case ALSO offered to the real Bridge::process_event / "
+            "Bridge::handle_response (to an outstanding request) under catch_unwind: the bridge must accept exactly what the decoder "
+            "accepts and never panic (key *-bridge-entry-*); `big` = two schema-valid events of 1.5 MiB and 5 MiB built by the harness "
+            "and offered to the real bridge (the model accepts every size: dec_enc is unbounded); (`any` is not generated "
             "for roots containing a map); `strict` also = every byte string Bridge::process_event / handle_response / view returned for "
             "generated histories of the apps (events and responses encoded from the schema, as a shell does; including events and "
             "responses whose update asks for no effect at all, where the bridge must still return the 8-byte encoding of an empty request list). non-trivial = at least one "
@@ -952,6 +958,10 @@ def conc_corerace_gen(tier, seed):
     return [["gen", seed, 3000 if tier == "quick" else 100000, "corerace"]]
 
 
+def conc_stress_gen(tier, seed):
+    return [["gen", seed, 120000 if tier == "quick" else 3000000, "stress"]]
+
+
 def conc_slot_gen(tier, seed):
     return [["gen", seed, 2500 if tier == "quick" else 120000, "slot"]]
 
@@ -973,6 +983,7 @@ PROPS["C08"] = {
         Stream("corerace", "conc", "conc", conc_corerace_gen, shape=conc_shape, shrink=sexp_shrinks, compare_model=False),
         Stream("bridgerace", "conc", "conc", conc_bridgerace_gen, shape=conc_shape, shrink=sexp_shrinks, compare_model=False),
         Stream("slot", "conc", "conc", conc_slot_gen, shape=conc_shape, shrink=sexp_shrinks, compare_model=False),
+        Stream("stress", "conc", "conc", conc_stress_gen, shape=conc_shape, shrink=sexp_shrinks, compare_model=False),
     ],
     "rule": "evict: a task awaiting join!(r0..rN) whose r0 is resolved is polled by thread 0 (`is_done()`) while threads 1..N resolve "
             "r1..rN; real threads are forced through an interleaving of the crux_verif schedule points (exactly one thread runs "
@@ -985,7 +996,14 @@ PROPS["C08"] = {
             "sequential prefix, 2-3 threads concurrently call process_event / resolve / view under a random schedule of 6-35 grants over "
             "the schedule points of both executors; accepted iff result classes, the union of the effects returned by all calls, the "
             "effects left for a following probe, the multiset of applied events and the queue/occupancy counters equal those of SOME "
-            "sequential order of the calls (all permutations computed by M.Hosts); the harness app flags concurrent entry into update. "
+            "sequential order of the calls (all permutations computed by M.Hosts); the harness app flags concurrent entry into update; "
+            "half of the schedules are ONE-PREEMPTION schedules (thread a passes k<28 points — among them poll_next:settled, between "
+            "a hosted command's last look at its ready queue and its return — then thread b runs to its end, then a resumes), and a "
+            "third of the cases are sibling work inside one command (two requests / streams of one and / all / task pair answered "
+            "concurrently). stress: 120 000 / 3 000 000 free-running rounds on real threads (no schedule) of five fixed histories "
+            "(follow-up request per stream item through both APIs, two requests of one command, of two legacy tasks, stream item + "
+            "event), same linearizability oracle — the only way to reach races inside regions where the code holds a lock (no "
+            "schedule point may lie there); detection there is probabilistic (≈7·10^-5 per round for the seeded C08-f). "
             "bridgerace: the same through a bincode Bridge with 2-3 threads calling process_event / handle_response, often addressing "
             "the SAME live stream id (a schedule point inside resume is reached with the registry lock held, so the other thread "
             "blocks on the lock: such schedules are released after 80 ms and only the outcome is judged). "
